@@ -10,19 +10,24 @@ ObsRecords == JsonDeserialize(IOEnv.OBS_FILE)
 Fn0m(m) == [i \in Idx(Len(m)) |-> Fn0(m[i + 1])]
 ObsScen(r) == [ backend |-> r.sc.backend, n |-> r.sc.n, rho |-> Fn0(r.sc.rho), optp |-> Fn0(r.sc.optp),
                 reorder |-> r.sc.reorder, spe |-> r.sc.spe, dark |-> {a \in Idx(r.sc.n) : r.sc.dark[a + 1]},
-                given |-> r.sc.given, dim |-> r.sc.dim ]
+                given |-> r.sc.given, dim |-> r.sc.dim, tagmode |-> r.sc.tagmode ]
 ObsState(r) == [Blank EXCEPT !.outcome = r.obs.outcome, !.atomOrder = Fn0(r.obs.atomOrder), !.ham = Fn0(r.obs.ham),
                              !.imat = Fn0m(r.obs.imat), !.occ = Fn0(r.obs.occ), !.bits = Fn0(r.obs.bits),
-                             !.corr = Fn0m(r.obs.corr)]
+                             !.corr = Fn0m(r.obs.corr), !.occX = Fn0(r.obs.occX), !.bitsX = Fn0(r.obs.bitsX),
+                             !.corrX = Fn0m(r.obs.corrX)]
 
 \* the part of the requirement that is about REPORTED VALUES only (what the property statements name)
+GroupVerdict(c, r) ==
+  IF ~(\A j \in Idx(c.n) : Reports(c, r.occ[j], c.rho[j])) THEN "occupations-not-in-register-order"
+  ELSE IF ~(\A i, j \in Idx(c.n) : Reports(c, r.corr[i][j][1], c.rho[i]) /\ Reports(c, r.corr[i][j][2], c.rho[j]))
+       THEN "correlations-not-in-register-order"
+  ELSE IF ~(\A j \in Idx(c.n) : Reports(c, r.bits[j], c.rho[j])) THEN "bitstring-positions-not-in-register-order"
+  ELSE "ok"
 ResultVerdict(c, t, numeric) ==
   IF ~RunsForEveryMask(c, t) THEN t.outcome
   ELSE IF t.atomOrder # c.rho THEN "atom-order-not-register-order"
-  ELSE IF ~(\A j \in Idx(c.n) : Reports(c, t.occ[j], c.rho[j])) THEN "occupations-not-in-register-order"
-  ELSE IF ~(\A i, j \in Idx(c.n) : Reports(c, t.corr[i][j][1], c.rho[i]) /\ Reports(c, t.corr[i][j][2], c.rho[j]))
-       THEN "correlations-not-in-register-order"
-  ELSE IF ~(\A j \in Idx(c.n) : Reports(c, t.bits[j], c.rho[j])) THEN "bitstring-positions-not-in-register-order"
+  ELSE IF HasBase(c) /\ GroupVerdict(c, Res(t, "base")) # "ok" THEN GroupVerdict(c, Res(t, "base"))
+  ELSE IF HasSuffixed(c) /\ GroupVerdict(c, Res(t, "x")) # "ok" THEN "suffixed-" \o GroupVerdict(c, Res(t, "x"))
   ELSE numeric
 
 ObsInit == oi \in 1..Len(ObsRecords) /\ sc = <<>> /\ s = <<>> /\ pc = "obs"
